@@ -156,68 +156,80 @@ Definition starts_dice (base : N) (input : list N) : bool :=
   starts_with 100 input && (base <=? 10) &&
   match tl input with c :: _ => is_ascii_digit c | [] => false end.
 
-(* parse_basic_number *)
+(* parse_basic_number, in the order of the source: integer component,
+   decimal point with digits and recurring digits, dice check, exponent,
+   superscript check *)
+
+(* integer component, unless the input starts with the decimal point *)
+Definition pbn_int (base : N) (sep : sepstyle) (input : list N) : lres (N * list N) :=
+  match input with
+  | c :: _ => if c =? decimal_char sep then LOk (0, input)
+              else ldo p <- parse_integer true base sep (dstep base) input (0, 0);
+                   LOk (fst (fst p), snd p)
+  | [] => LErr LExpectedACharacter
+  end.
+
+(* decimal point, digits, recurring digits: (is_integer, value so far, rest) *)
+Definition pbn_frac (base : N) (sep : sepstyle) (int_val : N) (input1 : list N)
+  : lres (bool * Q * list N) :=
+  match input1 with
+  | c :: rem =>
+    if c =? decimal_char sep then
+      ldo nf <- (if starts_with 40 rem then LOk ((0, 0), rem)
+                 else parse_integer true base sep (dstep base) rem (0, 0));
+      let '((fnum, flen), input2) := nf in
+      ldo rc <- parse_recurring_digits base sep flen input2;
+      LOk (false, (qN int_val + qN fnum / qN (base ^ flen) + fst rc)%Q, snd rc)
+    else LOk (true, qN int_val, input1)
+  | [] => LOk (true, qN int_val, input1)
+  end.
+
+(* dice syntax after an integer (`2d6`): not modelled *)
+Definition pbn_dice_after (base : N) (is_integer : bool) (input3 : list N) : bool :=
+  is_integer && (base <=? 10) && starts_with 100 input3 &&
+  match tl input3 with
+  | c :: _ => match to_digit base c with Some _ => true | None => false end
+  | [] => false
+  end.
+
+(* exponent, base 10 and below only *)
+Definition pbn_exp (base : N) (sep : sepstyle) (res : Q) (input3 : list N) : lres (Q * list N) :=
+  if base <=? 10 then
+    match input3 with
+    | e :: rem =>
+      if (e =? 101) || (e =? 69) then
+        match rem with
+        | ch :: _ =>
+          if is_ascii_digit ch || (ch =? 43) || (ch =? 45) then
+            let '(negexp, rem2) :=
+              if ch =? 45 then (true, tl rem)
+              else if ch =? 43 then (false, tl rem)
+              else (false, rem) in
+            ldo p <- parse_integer true base sep (dstep base) rem2 (0, 0);
+            let '((ev, _), rest) := p in
+            if 2 ^ 64 <=? ev then LErr LExponentTooLarge
+            else LOk ((res * Qpower (qN base) (if negexp then - Z.of_N ev else Z.of_N ev))%Q, rest)
+          else LOk (res, input3)
+        | [] => LOk (res, input3)
+        end
+      else LOk (res, input3)
+    | [] => LOk (res, input3)
+    end
+  else LOk (res, input3).
+
+Definition starts_superscript (input : list N) : bool :=
+  match input with c :: _ => is_superscript c | [] => false end.
+
 Definition parse_basic_number (base : N) (sep : sepstyle) (input : list N)
   : lres (Q * list N) :=
   if starts_dice base input then LErr LUnmodelled else
-  let point := decimal_char sep in
-  (* integer component, unless the input starts with the decimal point *)
-  ldo ip <- match input with
-            | c :: _ => if c =? point then LOk (0, input)
-                        else ldo p <- parse_integer true base sep (dstep base) input (0, 0);
-                             LOk (fst (fst p), snd p)
-            | [] => LErr LExpectedACharacter
-            end;
-  let '(int_val, input1) := ip in
-  (* decimal point, digits, recurring digits *)
-  ldo fp <- match input1 with
-            | c :: rem =>
-              if c =? point then
-                ldo nf <- (if starts_with 40 rem then LOk ((0, 0), rem)
-                           else parse_integer true base sep (dstep base) rem (0, 0));
-                let '((fnum, flen), input2) := nf in
-                ldo rc <- parse_recurring_digits base sep flen input2;
-                LOk (false, (qN int_val + qN fnum / qN (base ^ flen) + fst rc)%Q, snd rc)
-              else LOk (true, qN int_val, input1)
-            | [] => LOk (true, qN int_val, input1)
-            end;
-  let '(is_integer, res, input3) := fp in
-  (* dice syntax after an integer: not modelled *)
-  if is_integer && (base <=? 10) && starts_with 100 input3 &&
-     match tl input3 with
-     | c :: _ => match to_digit base c with Some _ => true | None => false end
-     | [] => false
-     end
-  then LErr LUnmodelled else
-  (* exponent, base 10 and below only *)
-  ldo ex <- (if base <=? 10 then
-               match input3 with
-               | e :: rem =>
-                 if (e =? 101) || (e =? 69) then
-                   match rem with
-                   | ch :: _ =>
-                     if is_ascii_digit ch || (ch =? 43) || (ch =? 45) then
-                       let '(negexp, rem2) :=
-                         if ch =? 45 then (true, tl rem)
-                         else if ch =? 43 then (false, tl rem)
-                         else (false, rem) in
-                       ldo p <- parse_integer true base sep (dstep base) rem2 (0, 0);
-                       let '((ev, _), rest) := p in
-                       if 2 ^ 64 <=? ev then LErr LExponentTooLarge
-                       else LOk ((res * Qpower (qN base) (if negexp then - Z.of_N ev else Z.of_N ev))%Q,
-                                 rest)
-                     else LOk (res, input3)
-                   | [] => LOk (res, input3)
-                   end
-                 else LOk (res, input3)
-               | [] => LOk (res, input3)
-               end
-             else LOk (res, input3));
-  let '(res2, input4) := ex in
+  ldo ip <- pbn_int base sep input;
+  ldo fp <- pbn_frac base sep (fst ip) (snd ip);
+  if pbn_dice_after base (fst (fst fp)) (snd fp) then LErr LUnmodelled else
+  ldo ex <- pbn_exp base sep (snd (fst fp)) (snd fp);
   (* superscript exponents: not modelled *)
-  if (base <=? 10) && match input4 with c :: _ => is_superscript c | [] => false end
-  then LErr LUnmodelled
-  else LOk (res2, input4).
+  if (base <=? 10) && starts_superscript (snd ex) then LErr LUnmodelled
+  else LOk ex.
 
 (* parse_number: optional base prefix, then the number *)
 Definition parse_number (sep : sepstyle) (input : list N) : lres (Q * basek * list N) :=
@@ -365,13 +377,13 @@ Definition lit_ok (l : lit) : bool :=
   true.
 
 (* what may follow a literal so that the lexer stops exactly there: anything
-   that is not an ASCII letter or digit, '_', '.', ',', '(' or a superscript *)
+   that is not an ASCII letter or digit, '_', '.', ',', '(', '#' or a superscript *)
 Definition ok_follow (rest : list N) : bool :=
   match rest with
   | [] => true
   | c :: _ =>
     negb (match char_digit_value c with Some _ => true | None => false end) &&
-    negb (c =? 95) && negb (c =? 46) && negb (c =? 44) && negb (c =? 40) &&
+    negb (c =? 95) && negb (c =? 46) && negb (c =? 44) && negb (c =? 40) && negb (c =? 35) &&
     negb (is_superscript c)
   end.
 
